@@ -692,3 +692,45 @@ M('C02', 'remove-folded-into-replace-arm', PATCH, "        elif op == DiffOp.REM
   "        elif op in (DiffOp.REMOVE, DiffOp.REPLACE):\n            # Replace (or drop) the old value\n            newobj.append(e.value)\n            skip = 1", 'R02.9')
 T('C02', 'twin-op-alias-renamed', PATCH, "    for e in diff:\n        op = e.op\n        index = e.key\n        assert isinstance(index, int), 'list key must be integer'",
   "    for e in diff:\n        kind = e.op\n        op = kind\n        index = e.key\n        assert isinstance(index, int), 'list key must be integer'")
+
+# ------------------------------------------------------------------------------------------ round-3 rules
+CHK = 'nbdime/merging/chunks.py'
+TSDEC2 = 'packages/nbdime/src/merge/decisions.ts'
+M('C03', 'sort-key-int-first', DEC, "            ret.append(('', -s))", "            ret.append((-s,))", 'R03.15')
+T('C03', 'twin-sort-key-other-string-sentinel', DEC, "            ret.append(('', -s))", "            ret.append((' ', -s))")
+M('C03', 'patch-end-boundary-dropped', CHK, "        elif e.op == DiffOp.PATCH:\n            k = j + 1\n            boundaries.add(k)\n", "", 'R03.16')
+T('C03', 'twin-boundaries-inline', CHK, "        elif e.op == DiffOp.PATCH:\n            k = j + 1\n            boundaries.add(k)\n", "        elif e.op == DiffOp.PATCH:\n            boundaries.add(j + 1)\n")
+M('C04', 'partial-dict-synthesised-under-input-key', STR, "    custom_diff = [op]\n", "    custom_diff = [op]\n    for d_ in local_conflict_diffs:\n        if d_.op == DiffOp.ADD and isinstance(d_.value, dict):\n            custom_diff.append(op_add(d_.key, {k_: v_ for k_, v_ in d_.value.items() if v_}))\n", 'R04.5')
+M('C07', 'similarity-predicate-dedupes-cells', STR, "    cells = []\n    cells.append(cell_marker(\"%s %s\" % (m0, local_title), with_id))",
+  "    from ..diffing.notebooks import compare_cell_strict\n    if lcells and rcells and compare_cell_strict(lcells[0], rcells[0]):\n        rcells = rcells[1:]\n    cells = []\n    cells.append(cell_marker(\"%s %s\" % (m0, local_title), with_id))", 'R07.7')
+M('C09', 'onesided-removal-recorded-as-agreement', MG, "        elif len(ldiff) == 2 or len(rdiff) == 2:\n            decisions.onesided(path, ldiff[1:], rdiff[1:])",
+  "        elif len(ldiff) == 2 or len(rdiff) == 2:\n            removal = ldiff[1:] or rdiff[1:]\n            decisions.agreement(path, removal, removal)", 'R09.11')
+M('C09', 'merged-edited-after-apply', MNB, "    merged = apply_decisions(base, decisions)\n", "    merged = apply_decisions(base, decisions)\n    merged['nbformat_minor'] = max(nb.get('nbformat_minor', 0) for nb in (base, local, remote))\n", 'R09.12')
+M('C10', 'attachments-follow-merge-strategy', MNB, "        attachments_strategy = input_strategy\n", "        attachments_strategy = merge_strategy\n", 'R10.7')
+T('C10', 'twin-source-strategy-renamed', MNB, "        source_strategy = input_strategy\n        attachments_strategy = input_strategy\n", "        source_strategy = attachments_strategy = input_strategy\n")
+M('C14', 'config-validation-raises-valueerror', CFGPY, "            if (c.__name__ in disk_config):\n", "            if (c.__name__ in disk_config) and not isinstance(disk_config[c.__name__], dict):\n                raise ValueError('section %s must be a mapping' % c.__name__)\n            if (c.__name__ in disk_config):\n", 'R14.8')
+M('C14', 'length-cutoff-before-equality-shortcut', GEN, "    # Cutoff on equality: Python has fast hash functions for strings,", "    if maxlen is not None and len(x) > maxlen and len(y) > maxlen:\n        return False\n\n    # Cutoff on equality: Python has fast hash functions for strings,", 'R14.9')
+T('C14', 'twin-emptiness-cutoff-rewritten', GEN, "    if bool(x) != bool(y):\n        return False\n", "    if (not x) != (not y):\n        return False\n")
+M('C15', 'ts-apply-decisions-shallow-copy', TSDEC2, "let merged = deepCopy(base);", "let merged = base;", 'R15.7')
+M('C16', 'lexer-from-codemirror-mode', PP, "        config.language = language_info.get(\n            'pygments_lexer',\n            language_info.get('name', None)\n        )",
+  "        config.language = language_info.get(\n            'pygments_lexer',\n            language_info.get('codemirror_mode', language_info.get('name', None))\n        )", 'R16.11')
+M('C16', 'surrogate-handlers-kept', UT, "        if errors == 'strict' or errors.startswith('surrogate'):", "        if errors == 'strict':", 'R16.12')
+T('C16', 'twin-raising-handlers-listed', UT, "        if errors == 'strict' or errors.startswith('surrogate'):", "        if errors in ('strict', 'surrogateescape', 'surrogatepass'):")
+M('C17', 'only-enoent-counts-as-deleted', GF, "                except IOError:\n                    return EXPLICIT_MISSING_FILE", "                except FileNotFoundError:\n                    return EXPLICIT_MISSING_FILE", 'R17.8')
+T('C17', 'twin-oserror-spelled-out', GF, "                except IOError:\n                    return EXPLICIT_MISSING_FILE", "                except OSError:\n                    return EXPLICIT_MISSING_FILE")
+M('C17', 'blob-streams-cached', GF, "            f = BlobWrapper(blob.data_stream.read().decode('utf-8'))\n", "            f = _blob_cache.get(blob.hexsha)\n            if f is None:\n                f = _blob_cache[blob.hexsha] = BlobWrapper(blob.data_stream.read().decode('utf-8'))\n", 'R17.9',
+  edits=[(GF, "def _get_diff_entry_stream(path, blob, ref_name, repo_dir):", "_blob_cache = {}\n\n\ndef _get_diff_entry_stream(path, blob, ref_name, repo_dir):")])
+M('C18', 'xdg-default-via-dict-get', UT, "            if os.environ.get('XDG_CONFIG_HOME'):\n                gitattributes = os.path.expandvars('$XDG_CONFIG_HOME/git/attributes')\n            else:\n                gitattributes = os.path.expanduser('~/.config/git/attributes')",
+  "            gitattributes = os.path.join(os.environ.get('XDG_CONFIG_HOME', os.path.expanduser('~/.config')), 'git', 'attributes')", 'R18.9')
+M('C18', 'shared-git-config-vector', DDR, "def disable(scope=None):\n    \"\"\"Disable nbdime git diff drivers\"\"\"\n    cmd = ['git', 'config']\n    if scope:\n        cmd.append('--%s' % scope)",
+  "_GIT_CONFIG = ['git', 'config']\n\n\ndef disable(scope=None):\n    \"\"\"Disable nbdime git diff drivers\"\"\"\n    cmd = _GIT_CONFIG\n    if scope:\n        cmd.append('--%s' % scope)", 'R18.10')
+M('C19', 'webtool-redeclares-browser-none', CFGPY, "class WebTool(Web):\n    pass\n", "class WebTool(Web):\n\n    browser = Unicode(\n        None,\n        allow_none=True,\n        help=\"browser for the git web tools\",\n    ).tag(config=True)\n", 'R19.9')
+T('C19', 'twin-webtool-redeclares-port-with-default', CFGPY, "class WebTool(Web):\n    pass\n", "class WebTool(Web):\n\n    port = Integer(\n        0,\n        help=\"port for the git web tools\",\n    ).tag(config=True)\n")
+M('C20', 'loop-stopped-in-on-finish', SRV, "        _logger.info('Closing server on remote request (%d)', self.application.exit_code)\n        self.finish()\n        ioloop.IOLoop.current().stop()\n",
+  "        _logger.info('Closing server on remote request (%d)', self.application.exit_code)\n        self.finish()\n\n    def on_finish(self):\n        ioloop.IOLoop.current().stop()\n", 'R20.3')
+M('C02', 'plain-defaultdict-tables', GEN, "    return defaultdict2(lambda: diff, {})", "    import collections\n    return collections.defaultdict(lambda: diff)", 'R02.10')
+M('C02', 'overlapping-head-tail-trim', 'nbdime/diffing/seq_bruteforce.py', "def bruteforce_compute_snakes(A, B, compare):",
+  "def _common_ends(A, B, compare):\n    n = min(len(A), len(B))\n    head = 0\n    while head < n and compare(A[head], B[head]):\n        head += 1\n    tail = 0\n    while tail < n and compare(A[-1 - tail], B[-1 - tail]):\n        tail += 1\n    return head, tail\n\n\ndef bruteforce_compute_snakes(A, B, compare):", 'R02.11')
+T('C02', 'twin-disjoint-head-tail-trim', 'nbdime/diffing/seq_bruteforce.py', "def bruteforce_compute_snakes(A, B, compare):",
+  "def _common_ends(A, B, compare):\n    n = min(len(A), len(B))\n    head = 0\n    while head < n and compare(A[head], B[head]):\n        head += 1\n    tail = 0\n    while tail < n - head and compare(A[-1 - tail], B[-1 - tail]):\n        tail += 1\n    return head, tail\n\n\ndef bruteforce_compute_snakes(A, B, compare):")
+M('C08', 'trivial-merge-returns-success-without-merging', APP, "    # Git seems to give empty base file for double insertions\n", "    if bfn == rfn:\n        nbformat.write(read_notebook(lfn, on_null='minimal'), mfn)\n        return 0\n\n    # Git seems to give empty base file for double insertions\n", 'R08.1')
